@@ -68,13 +68,17 @@ def free_scripts (maxlen, ops):
   return out
 
 
-def run_program (ctx, prog, init=()):
-  """prog: one script per task; init: names of the locks that are created with Lock(locked=True)."""
+def run_program (ctx, prog, init=(), falsy=()):
+  """prog: one script per task; init: names of the locks that are created with Lock(locked=True); falsy: indices of the
+  tasks whose task object is false in a boolean context (a Task subclass with __len__, e.g. one that is also a
+  container and happens to be empty) - who holds a lock must not depend on what bool(holder) says."""
   import threading, queue
   from mc.env import boot, FakePinger, VClock
   boot()
   import pox.lib.recoco.recoco as R, pox.lib.util as U
   R.threading = threading; R.Thread = threading.Thread; R.Queue = queue.Queue; R.time = VClock()
+  from mc.props.c07 import field_points
+  field_points(R, None, ())             # (the thread scenarios' attribute hooks, if this process ran one before)
   # the scheduler prints a traceback for every task it de-schedules because of an exception (a release of a free
   # lock raises by design); keep the check's output readable
   R.print = lambda *a, **k: None
@@ -155,9 +159,11 @@ def run_program (ctx, prog, init=()):
           yield from op(idx, o)
       done.add(idx)
       yield False
+  class EmptyProg (Prog):
+    def __len__ (self): return 0
   tasks = []
   for i, s in enumerate(prog):
-    t = Prog(i, s); t.idx = i
+    t = (EmptyProg if i in falsy else Prog)(i, s); t.idx = i
     tasks.append(t); t.start(sch, fast=True)
   steps = 0
   while len(sch._ready) and steps < 200 and not bad:
@@ -171,7 +177,7 @@ def run_program (ctx, prog, init=()):
       else:
         mlocked[k] = False; holder[k] = None          # by the reference the lock is free now
     for k, l in locks.items():
-      if not l._locked and waiting[k] and not any(who(t) in waiting[k] for t in sch._ready):
+      if (l._locked is None or l._locked is False) and waiting[k] and not any(who(t) in waiting[k] for t in sch._ready):
         bad.append(("stranded-waiter", "lock %s is free but task(s) %r stay blocked on it" % (k, sorted(waiting[k]))))
       elif not mlocked[k] and waiting[k] and not any(who(t) in waiting[k] for t in sch._ready):
         bad.append(("stranded-waiter", "lock %s was released (free by the reference) but task(s) %r stay blocked on it" % (k, sorted(waiting[k]))))
@@ -185,15 +191,19 @@ def run_program (ctx, prog, init=()):
 
 def _worker (progs):
   rep = Report(PID, "model_checking")
-  for prog, init in progs:
+  for item in progs:
+    prog, init = item[:2]
+    falsy = item[2] if len(item) > 2 else ()
     def on_exec (ctx, res):
       bad, out = res
       rep.evaluations += 1; rep.transitions += sum(len(s) for s in prog)
-      rep.outcome(("lock", prog, init, out, tuple(b[0] for b in bad)))
+      rep.outcome(("lock", prog, init, falsy, out, tuple(b[0] for b in bad)))
       for k, what in bad:
-        rep.violation("%s:lock:%s" % (PID, k), "%s; program %r%s" % (what, prog, ", created locked: %r" % (init,) if init else ""),
-                      dict(locks=True, program=[list(s) for s in prog], init=list(init), choices=ctx.choices()))
-    explore(lambda ctx: run_program(ctx, prog, init), on_exec=on_exec)
+        rep.violation("%s:lock:%s%s" % (PID, k, ":falsy-task" if falsy else ""),
+                      "%s; program %r%s%s" % (what, prog, ", created locked: %r" % (init,) if init else "",
+                                              ", tasks with bool(task) == False: %r" % (falsy,) if falsy else ""),
+                      dict(locks=True, program=[list(s) for s in prog], init=list(init), falsy=list(falsy), choices=ctx.choices()))
+    explore(lambda ctx: run_program(ctx, prog, init, falsy), on_exec=on_exec)
   rep.state_count = rep.evaluations
   return rep
 
@@ -226,6 +236,15 @@ def programs (quick):
     add(itertools.product(free_scripts(3, FREE1_PLAIN), repeat=3), one)
     add(itertools.product(free_scripts(3, FREE2), repeat=2), two)
     add(itertools.product(free_scripts(2, FREE1_PLAIN), repeat=4), one)
+  # task objects that are false in a boolean context (every non-empty subset of the tasks): owned programs of 2 tasks
+  # (scripts <= 3 ops; thorough: 3 tasks x scripts <= 2 ops too) and free-form ones (scripts <= 2 ops), one lock
+  fam = [(p, ()) for p in itertools.product(scripts(3, 1), repeat=2)]
+  fam += [(p, i) for p in itertools.product(free_scripts(2, FREE1_PLAIN), repeat=2) for i in one]
+  if not quick: fam += [(p, ()) for p in itertools.product(scripts(2, 1), repeat=3)]
+  for p, i in fam:
+    for k in range(1, len(p) + 1):
+      for f in itertools.combinations(range(len(p)), k):
+        ps.append((p, i, f))
   return ps
 
 
@@ -241,5 +260,6 @@ def run_locks (cfg):
 def replay_locks (data):
   prog = tuple(tuple(s) for s in data["program"])
   init = tuple(data.get("init", ()))
-  bad, out = run_program(Ctx(list(data["choices"])), prog, init)
-  return bool(bad), "program %r, created locked %r\n=> %r %r" % (prog, init, bad, out)
+  falsy = tuple(data.get("falsy", ()))
+  bad, out = run_program(Ctx(list(data["choices"])), prog, init, falsy)
+  return bool(bad), "program %r, created locked %r, falsy task objects %r\n=> %r %r" % (prog, init, falsy, bad, out)
